@@ -121,11 +121,21 @@ def _print_trigger_func(para_name, trigger_var: List[str]):
 
 
 def print_trigger(PARAM: Dict[str, ParamBase]):
+    # A triggerable parameter may be triggered by another triggerable parameter. Then it has to be assigned after that
+    # one, otherwise it is computed from the stale value read from p_. PARAM is ordered by symbol name, not by dependence.
+    pending = [name for name, param in PARAM.items() if param.triggerable]
+    ordered = []
+    while pending:
+        ready = [name for name in pending
+                 if not any(var in pending and var != name for var in PARAM[name].trigger_var)]
+        if not ready:
+            raise ValueError(f"Triggerable parameters {pending} trigger each other in a cycle!")
+        ordered.extend(ready)
+        pending = [name for name in pending if name not in ready]
     trigger_declaration = []
-    for name, param in PARAM.items():
-        if param.triggerable:
-            trigger_declaration.append(_print_trigger_func(name,
-                                                           param.trigger_var))
+    for name in ordered:
+        trigger_declaration.append(_print_trigger_func(name,
+                                                       PARAM[name].trigger_var))
     return trigger_declaration
 
 
